@@ -34,6 +34,14 @@ func (src *Rollout) ConvertTo(dst conversion.Hub) error {
 		obj.ObjectMeta = src.ObjectMeta
 		obj.Spec = v1beta1.RolloutSpec{}
 		srcSpec := src.Spec
+		// the v1alpha1 schema admits objects without workloadRef and without a canary block
+		if srcSpec.ObjectRef.WorkloadRef == nil {
+			srcSpec.ObjectRef.WorkloadRef = &WorkloadRef{}
+		}
+		emptyStrategy := srcSpec.Strategy.Canary == nil
+		if emptyStrategy {
+			srcSpec.Strategy.Canary = &CanaryStrategy{}
+		}
 		obj.Spec.WorkloadRef = v1beta1.ObjectRef{
 			APIVersion: srcSpec.ObjectRef.WorkloadRef.APIVersion,
 			Kind:       srcSpec.ObjectRef.WorkloadRef.Kind,
@@ -81,6 +89,9 @@ func (src *Rollout) ConvertTo(dst conversion.Hub) error {
 		}
 		if src.Annotations[TrafficRoutingAnnotation] != "" {
 			obj.Spec.Strategy.Canary.TrafficRoutingRef = src.Annotations[TrafficRoutingAnnotation]
+		}
+		if emptyStrategy {
+			obj.Spec.Strategy.Canary = nil
 		}
 
 		// status
@@ -171,6 +182,13 @@ func (dst *Rollout) ConvertFrom(src conversion.Hub) error {
 	case *v1beta1.Rollout:
 		srcV1beta1 := src.(*v1beta1.Rollout)
 		dst.ObjectMeta = srcV1beta1.ObjectMeta
+		// the v1beta1 schema admits a strategy with neither canary nor blueGreen
+		emptyStrategy := srcV1beta1.Spec.Strategy.IsEmptyRelease()
+		if emptyStrategy {
+			srcV1beta1 = srcV1beta1.DeepCopy()
+			srcV1beta1.Spec.Strategy.Canary = &v1beta1.CanaryStrategy{}
+			dst.ObjectMeta = srcV1beta1.ObjectMeta
+		}
 		if !srcV1beta1.Spec.Strategy.IsCanaryStragegy() {
 			// only v1beta1 supports bluegreen strategy
 			// Don't log the message because it will print too often
@@ -220,7 +238,9 @@ func (dst *Rollout) ConvertFrom(src conversion.Hub) error {
 		if dst.Annotations == nil {
 			dst.Annotations = map[string]string{}
 		}
-		if srcV1beta1.Spec.Strategy.Canary.EnableExtraWorkloadForCanary {
+		if emptyStrategy {
+			dst.Spec.Strategy.Canary = nil
+		} else if srcV1beta1.Spec.Strategy.Canary.EnableExtraWorkloadForCanary {
 			dst.Annotations[RolloutStyleAnnotation] = strings.ToLower(string(CanaryRollingStyle))
 		} else {
 			dst.Annotations[RolloutStyleAnnotation] = strings.ToLower(string(PartitionRollingStyle))
@@ -319,6 +339,10 @@ func (src *BatchRelease) ConvertTo(dst conversion.Hub) error {
 		obj.ObjectMeta = src.ObjectMeta
 		obj.Spec = v1beta1.BatchReleaseSpec{}
 		srcSpec := src.Spec
+		// the v1alpha1 schema admits a targetReference without workloadRef
+		if srcSpec.TargetRef.WorkloadRef == nil {
+			srcSpec.TargetRef.WorkloadRef = &WorkloadRef{}
+		}
 		obj.Spec.WorkloadRef = v1beta1.ObjectRef{
 			APIVersion: srcSpec.TargetRef.WorkloadRef.APIVersion,
 			Kind:       srcSpec.TargetRef.WorkloadRef.Kind,
